@@ -1,6 +1,27 @@
-(** C06 - placeholder until the guard theorems land. *)
-From Coq Require Import List NArith.
-From BP Require Import Base.Field Model.Prover.
-Theorem C06_offset_none : forall v, offset_value v None = v.
-Proof. reflexivity. Qed.
-Print Assumptions C06_offset_none.
+(** C06 — the prover emits a proof exactly when the witness is valid: the guard is the relation. *)
+From Coq Require Import List Arith NArith Bool.
+From BP Require Import Base.Field Model.Prover Proofs.GuardsP.
+Import ListNotations.
+
+(** the boolean guard of the prover model (opening count, extension degree, value range with the 64-bit
+    special case, re-commitment of every opening under the statement's generators, promise <= value)
+    holds exactly for the witnesses of the property's relation, for all u64 values and all bit lengths *)
+Theorem C06_witness_valid_iff : forall (K : Fld) (M : Mod K), ModOk K M ->
+  forall bits T ofN (g : gens K M) commitments promises values blindings wT,
+  length values = length blindings -> length values = length promises ->
+  (witness_valid K M bits T ofN g commitments promises values blindings wT = true <->
+   (length values = length commitments /\ wT = T /\
+    Forall (fun v => bits < 64 -> (v < 2 ^ N.of_nat bits)%N) values /\
+    Forall (fun vc => let '(v, r, c) := vc in 1 <= length r <= T /\ commit K M g (ofN v) r = c) (combine (combine values blindings) commitments) /\
+    Forall (fun vp => match snd vp with Some mv => (mv <= fst vp)%N | None => True end) (combine values promises))).
+Proof. exact witness_valid_iff. Qed.
+Print Assumptions C06_witness_valid_iff.
+
+(** at 64 bits the range guard accepts every u64 *)
+Theorem C06_shift_guard_64 : forall v : N, (0 <? N.shiftr v (N.of_nat 64))%N = true <-> (2 ^ 64 <= v)%N.
+Proof. intros v. exact (shiftr_pos_iff v 64). Qed.
+Print Assumptions C06_shift_guard_64.
+
+Theorem C06_offset_is_value_minus_promise : forall v p, offset_value v (Some p) = (v - p)%N /\ offset_value v None = v.
+Proof. intros; split; reflexivity. Qed.
+Print Assumptions C06_offset_is_value_minus_promise.
